@@ -206,8 +206,19 @@ func orcTrigger(s *orcStep, prop string) string {
 		}
 		if inh {
 			if prop == "C41" {
-				// the cause differs per operation (each has its own unguarded write path)
-				return c.Kind + "-of-element-inherited-from-base-board"
+				// the cause differs per operation (each has its own unguarded write path) and per
+				// way of inheriting: declared by a key of the base board, used there only as a
+				// connection endpoint, or only a descendant of the target is inherited
+				how := "descendant-inherited"
+				switch {
+				case t >= 0 && pre.Objs[t].InheritedKey:
+					how = "element-declared-in-base-board"
+				case t >= 0 && pre.Objs[t].Inherited:
+					how = "element-only-connection-endpoint-in-base-board"
+				case te >= 0:
+					how = "connection-inherited-from-base-board"
+				}
+				return c.Kind + "-of-" + how
 			}
 			return "target-inherited-from-base-board"
 		}
@@ -260,8 +271,9 @@ func orcTrigger(s *orcStep, prop string) string {
 	if c.Kind == "set" && !k.Edge && len(k.Attr) == 0 && t >= 0 && pre.Objs[t].LabelKW {
 		return "primary-label-shadowed-by-label-key"
 	}
-	if c.Kind == "set" && k.Edge && len(k.EdgeAttr) == 0 && te >= 0 && pre.Edges[te].LabelKW {
-		return "primary-label-shadowed-by-label-key"
+	if c.Kind == "set" && k.Edge && te >= 0 && pre.Edges[te].LabelKW &&
+		(len(k.EdgeAttr) == 0 || (len(k.EdgeAttr) == 1 && k.EdgeAttr[0] == "label")) {
+		return "connection-label-declared-by-label-key"
 	}
 	// --- connections -------------------------------------------------------------------
 	if te >= 0 {
@@ -274,7 +286,7 @@ func orcTrigger(s *orcStep, prop string) string {
 				return "connection-has-arrowhead"
 			}
 		}
-		if c.Kind == "reconnect" || c.Kind == "rename" || c.Kind == "move" || (c.Kind == "delete" && len(k.EdgeAttr) == 0) {
+		if c.Kind == "reconnect" || c.Kind == "rename" || c.Kind == "move" {
 			pairs := [][2]int{{e.Src, e.Dst}}
 			if c.Kind == "reconnect" {
 				ns, nd := e.Src, e.Dst
@@ -312,6 +324,15 @@ func orcTrigger(s *orcStep, prop string) string {
 			}
 			if e.RefCount > 1 {
 				return "connection-has-index-references"
+			}
+		}
+	}
+	// --- a quoted "_" as a name ----------------------------------------------------------
+	if t >= 0 && (c.Kind == "delete" || c.Kind == "move" || c.Kind == "rename") {
+		for i := range pre.Objs {
+			if inSub(i) && pre.Objs[i].IDVal == "_" {
+				// bumpChildrenUnderscores strips a leading `_` segment even when it is a quoted name
+				return "subtree-has-object-named-underscore"
 			}
 		}
 	}
